@@ -59,7 +59,9 @@ def main():
     n_paths = 0
     for k in range(0, K + 1):
         schars = [z3.BitVec(f"s{i}", 32) for i in range(k)]
-        for nctx in (0, 1, 2):
+        # the longest strings are checked at end of input and before a bare delimiter; shorter ones also with a second
+        # arbitrary context character (e.g. a quote further along the line)
+        for nctx in ((0, 1, 2) if k < K else (0, 1)):
             cchars = [z3.BitVec(f"x{i}", 32) for i in range(nctx)]
 
             def run(ctx, schars=schars, cchars=cchars):
@@ -76,7 +78,7 @@ def main():
                 vfs_path = Struct("VfsPathBuf", {"path": Rc(Opaque("path")), "id": Opaque("vfsid")}, partial=True)
                 ts, errs = I.call_user(P.fns["lex"], [vfs_path, src])
                 toks = ts.fields["tokens"].items
-                out = {"I": I, "esc": esc, "toks": toks, "errs": errs, "s": s}
+                out = {"I": None, "esc": esc, "toks": toks, "errs": errs, "s": s, "called": I.called, "eq": I.eq_values}
                 if toks:
                     d, un = I.call_user(P.fns["unescape_string"], [toks[0]])
                     out["diag"], out["un"] = d, un
@@ -95,21 +97,21 @@ def main():
                 if r.kind != "ok":
                     continue
                 v = r.value
-                I = v["I"]
-                C.note_interp(I)
+                for (nm, fl, l0, l1, h) in v["called"]:
+                    C.functions[nm] = {"fn": nm, "file": fl, "lines": [l0, l1], "hash": h}
                 if not v["toks"]:
                     C.prove(name + ":token-exists", r.pc, False, site="string-literal/no-token", what="the printed literal lexes to no token",
                             replay=rp, model_desc=md)
                     continue
                 tok_text = v["toks"][0].fields["text"]
-                same_tok = I.eq_values(tok_text, v["esc"])
+                same_tok = v["eq"](tok_text, v["esc"])
                 no_err = len(v["errs"].items) == 0 if nctx == 0 or True else True
                 # errors caused by the context's second character (e.g. a lone quote) are not the literal's
                 lit_errs = [e for e in v["errs"].items]
                 C.prove(name + ":first-token-is-the-literal", r.pc, same_tok, site="string-literal/token-boundary",
                         what="the first token of `escape(s) ++ context` is not exactly escape(s)", replay=rp, model_desc=md)
                 if "un" in v:
-                    round_ok = I.eq_values(v["un"], v["s"])
+                    round_ok = v["eq"](v["un"], v["s"])
                     nodiag = len(v["diag"].items) == 0
                     from rsx.interp import b_and
                     C.prove(name + ":unescape-roundtrip", r.pc + ([same_tok] if not isinstance(same_tok, bool) else []),
